@@ -210,6 +210,14 @@ def hostMatches (n o : String) : Bool :=
   else if isWildcarded o then hasSuffixStr n (drop1 o)
   else n == o
 
+/-- `host.Name.SubsetOf`. -/
+def hostSubsetOf (n o : String) : Bool :=
+  if isWildcarded n then
+    if isWildcarded o then (if n.length < o.length then false else hasSuffixStr (drop1 n) (drop1 o))
+    else false
+  else if isWildcarded o then hasSuffixStr n (drop1 o)
+  else n == o
+
 /-- One VirtualService is selected when some host of it (lower-cased) is a service host, or - wildcard
     host - matches some service host, or - plain host - is matched by some wildcard service host. -/
 def vsSelected (svcHosts : List String) (hosts : List String) : Bool :=
